@@ -254,6 +254,10 @@ def init_contract(c, typed: bool):
 
     if typed:
         c.raises("AssertionError", when=lambda x: Or(Not(L.v_is_str(x.a.kind)), x.a.kind == ANY_KIND, bad_nid(x)), ensures=others_unchanged, props=("C13",))
+        # CPython: the message of the failing `assert ... , f"{node}"` in Tree._register calls TypedNode.__repr__ on the half-built
+        # node (no _kind yet), so the refusal surfaces as AttributeError.  The executor does not evaluate assert messages
+        # (DESIGN §8); found by the run-time cross-check.  Same guarantee on both.
+        c.may_raise("AttributeError", when=bad_nid, ensures=others_unchanged, props=("C13",), name="AttributeError (repr of the half-built node in the assert message)")
     else:
         c.raises("AssertionError", when=bad_nid, ensures=others_unchanged, props=("C13",))
     c.raises("UniqueConstraintError", when=lambda x: And(Not(bad_nid(x)), clash(x), True if not typed else And(L.v_is_str(x.a.kind), x.a.kind != ANY_KIND)), ensures=lambda x: And(others_unchanged(x), wf(x.h, Tof(x))), props=("C03", "C13"))
@@ -297,17 +301,19 @@ def fa_childlists_same(x, T):
                ForAll([p, i], Implies(And(h0.inP(T, p), 0 <= i, i < h0.clen(p)), h.child(p, i) == h0.child(p, i)), patterns=[h.litem(h._children(p), i)]))
 
 
-def obs_dicts_unchanged(x):
+def obs_dicts_unchanged(x, pre_existing_only=False):
+    """every dict is as before (with pre_existing_only: every dict that existed at entry; fresh dicts are free)"""
     h0, h = x.h0, x.h
     cs = []
     d, k = L.fresh("d", L.DRef), L.fresh("k", L.Val)
+    ex = (lambda f: Implies(h0.dalloc(d), f)) if pre_existing_only else (lambda f: f)
     if not z3.eq(h0.ddom, h.ddom):
-        cs.append(ForAll([d, k], h.ddom(d, k) == h0.ddom(d, k), patterns=[h.ddom(d, k)]))
+        cs.append(ForAll([d, k], ex(h.ddom(d, k) == h0.ddom(d, k)), patterns=[h.ddom(d, k)]))
     for comp in ("dref", "dlst", "dval"):
         if not z3.eq(h0.f(comp), h.f(comp)):
-            cs.append(ForAll([d, k], Implies(h0.ddom(d, k), h.f(comp)(d, k) == h0.f(comp)(d, k)), patterns=[h.f(comp)(d, k)]))
+            cs.append(ForAll([d, k], Implies(And(h0.ddom(d, k), h0.dalloc(d)) if pre_existing_only else h0.ddom(d, k), h.f(comp)(d, k) == h0.f(comp)(d, k)), patterns=[h.f(comp)(d, k)]))
     if not z3.eq(h0.dcard, h.dcard):
-        cs.append(ForAll([d], h.dcard(d) == h0.dcard(d), patterns=[h.dcard(d)]))
+        cs.append(ForAll([d], ex(h.dcard(d) == h0.dcard(d)), patterns=[h.dcard(d)]))
     return And(*cs) if cs else z3.BoolVal(True)
 
 
